@@ -34,6 +34,8 @@ TrShardStart == IsEvent("UpShardStart") /\ ShardStart(R.sess, R.sh, R.files, R.c
 TrShardEnd == IsEvent("UpShardEnd") /\ ShardEnd(R.sess, R.sh, R.res)
 TrFinish == IsEvent("UpFinish") /\ Finish(R.sess, R.f, R.ptr_hash, R.ref_hash, R.size, R.nbytes, R.m)
 TrFinalize == IsEvent("UpFinalize") /\ Finalize(R.sess, R.m)
+TrDryFinalize == IsEvent("UpDryFinalize") /\ DryFinalize(R.sess, R.m)
+TrFileInfos == IsEvent("UpFileInfos") /\ FileInfos(R.sess, R.files)
 TrPointer == IsEvent("UpPointer") /\ Pointer(R.sess, R.f, R.ptr_hash, R.ref_hash, R.size, R.nbytes)
 TrApiDone == IsEvent("UpApiDone") /\ ApiDone(R.sess)
 TrErr == IsEvent("UpErr") /\ Err(R.sess)
@@ -46,7 +48,7 @@ TrDownload == IsEvent("UpDownload") /\ Download(R.f, R.a, R.b, R.out, R.exp, R.n
 
 TraceNext == \/ TrReset \/ TrSessionStart \/ TrFileStart \/ TrDecision \/ TrCut \/ TrCompletion \/ TrPutStart
              \/ TrPutEnd \/ TrShardStart \/ TrShardEnd \/ TrFinish \/ TrFinalize \/ TrErr \/ TrAbort
-             \/ TrCacheIndex \/ TrStoreCheck \/ TrDownload \/ TrGlobalQuery \/ TrPointer \/ TrApiDone
+             \/ TrCacheIndex \/ TrStoreCheck \/ TrDownload \/ TrGlobalQuery \/ TrPointer \/ TrApiDone \/ TrDryFinalize \/ TrFileInfos
 TraceSpec == TraceInit /\ [][TraceNext]_tvars
 
 TraceAccepted ==
